@@ -14,7 +14,7 @@ import sys
 import time
 
 HERE = os.path.dirname(os.path.dirname(os.path.abspath(__file__)))
-WT = '/tmp/wt-confirm'
+WT = os.environ.get('VERIF_CONFIRM_WT', '/tmp/wt-confirm')
 ENV = dict(os.environ, CARGO_NET_OFFLINE='true')
 
 
